@@ -141,7 +141,7 @@ def op_gc(w: World, op: dict):
 
 
 def op_tamper(w: World, op: dict):
-    w.tamper(op["s"], op["o"])
+    w.tamper(op["s"], op["o"], op.get("pat", "append"))
     w.emit({"op": "Tamper", "s": op["s"], "o": op["o"]}, {"op": "tamper"})
 
 
@@ -165,12 +165,37 @@ def run_case(case: dict, seed: int) -> dict:
         w = World(root, uni, STORES, idx_store="remote")
         init = {s: {x: st for x, st in objs.items() if st != "none"} for s, objs in case["init"].items()}
         w.setup(init)
+        w.fault_kind = case.get("fk", 0)
+        if case.get("state") in ("cold", "warm"):
+            w.use_real_state(warm=case["state"] == "warm")
         obs0 = w.observe()
-        for op in case["ops"]:
-            OPS[op["op"]](w, op)
+        try:
+            for op in case["ops"]:
+                OPS[op["op"]](w, op)
+        finally:
+            w.close()
         return {"init": {"store": obs0["store"], "ridx": obs0["ridx"]}, "events": w.events, "case": case}
     finally:
         rmtree(root)
+
+
+def diversify(cases: list[dict]) -> list[dict]:
+    """Concretisation choices the spec does not see: which exception class an injected failure has,
+    which tamper pattern is used, whether the local stores share a real hash-state database and
+    whether it already holds entries.  Deterministic in the case's position."""
+    from ..world import FAULT_KINDS
+
+    pats = World.TAMPER_PATTERNS
+    for i, c in enumerate(cases):
+        c.setdefault("fk", i % len(FAULT_KINDS))
+        c.setdefault("state", ["noop", "warm", "cold"][i % 3])
+        c.setdefault("useed", i % 3)
+        k = i
+        for op in c["ops"]:
+            if op["op"] == "Tamper":
+                op.setdefault("pat", pats[k % len(pats)])
+                k += 1
+    return cases
 
 
 def _run_many(args):
@@ -187,6 +212,7 @@ def _run_many(args):
 
 
 def execute(cases: list[dict], seed: int, procs: int = 16) -> list[dict]:
+    cases = diversify(cases)
     n = max(1, min(procs * 4, len(cases)))
     jobs = [(cases[k::n], seed) for k in range(n)]
     with get_context("fork").Pool(procs) as pool:
@@ -308,6 +334,28 @@ def many_oids_cases(rng: random.Random, n: int) -> list[dict]:
     return cases
 
 
+def tamper_matrix() -> list[dict]:
+    """C07's quantifier spelled out: every tamper pattern x hash-state cache (none / cold / holding an entry
+    from before the tampering) x store class x the query that meets the tampered object."""
+    full = {"cache": {x: "ok_p" for x in FILES + list(DIRS)}, "remote": {x: "ok_u" for x in FILES + list(DIRS)}}
+    cases = []
+    for s in STORES:
+        other = "remote" if s == "cache" else "cache"
+        for o in FILES:
+            for pat in World.TAMPER_PATTERNS:
+                for state in ("noop", "cold", "warm"):
+                    followups = [
+                        [{"op": "Check", "s": s, "o": o}],
+                        [{"op": "Status", "s": s, "ids": [o, "d1"], "shallow": True, "idx": False}, {"op": "Check", "s": s, "o": o}],
+                        [{"op": "CompareStatus", "a": s, "b": other, "ids": FILES, "shallow": True}],
+                        [{"op": "Transfer", "src": s, "dst": other, "req": FILES + list(DIRS), "shallow": True, "idx": False, "F": []}],
+                    ]
+                    for fu in followups:
+                        cases.append({"init": full, "ops": [{"op": "Tamper", "s": s, "o": o, "pat": pat}] + fu,
+                                      "kind": "tamper-matrix", "state": state})
+    return cases
+
+
 def validate_and_classify(run: core.Run, traces: list[dict], shards=12):
     if not traces:
         raise tlc.MachineryError("no traces to validate")
@@ -339,9 +387,10 @@ def validate_and_classify(run: core.Run, traces: list[dict], shards=12):
             raise tlc.MachineryError(f"trace validation failed (shard {k}): violated={res.violated} "
                                      f"error={res.error}\n{res.stdout[-2500:]}")
         expect = sum(len(t["events"]) + 1 for t in doc_traces[lo:hi])
-        if res.distinct != expect:
-            raise tlc.MachineryError(f"trace validation did not consume every event: {res.distinct} states for "
-                                     f"{expect} expected (shard {k})")
+        deepest = max(len(t["events"]) + 1 for t in doc_traces[lo:hi])
+        if res.distinct < expect or res.depth != deepest:
+            raise tlc.MachineryError(f"trace validation did not consume every event: {res.distinct} states / depth "
+                                     f"{res.depth} for {expect} events / depth {deepest} expected (shard {k})")
         return [(v[0], v[1], v[2], v[3] + lo, v[4], v[5]) for v in res.printed
                 if isinstance(v, tuple) and len(v) == 6 and v[0] in ("VERDICT", "DIVERGENCE")], res
 
@@ -537,6 +586,7 @@ def check_C07(run: core.Run, replay=None):
             cases.append({"init": c["init"], "ops": ops, "kind": "status+check"})
         for c in _sample(gv["verify"], 600 if quick else 10**9, rng):
             cases.append({"init": c["init"], "ops": [xfer_op(c, verify=c["verify"])], "kind": "verify"})
+        cases += tamper_matrix()
         cases += sim_cases("ObjectStore_sim.cfg", 300 if quick else 3000, 14, run.seed + 6)
         run.extra["generated_cases"] = {"check": len(gen["check"]), "status_with_corrupt": len(bad), "verify": len(gv["verify"])}
     traces = execute(cases, run.seed)
